@@ -13,10 +13,14 @@ def parse(fn):
             passed.add(tid)
     return passed - failed, failed
 
+REPO = os.environ.get("BSL_REPO", "/repo")
+
+
 def run(args, junit):
     env = dict(os.environ); env.pop("BLUESKY_VERIF", None)
+    env["PYTHONPATH"] = os.path.join(REPO, "src")
     subprocess.run(["/venv/bin/python", "-m", "pytest", "-q", "-p", "no:cacheprovider", "--timeout=900",
-                    "--continue-on-collection-errors", f"--junitxml={junit}"] + args, cwd="/repo", env=env,
+                    "--continue-on-collection-errors", f"--junitxml={junit}"] + args, cwd=REPO, env=env,
                    stdout=subprocess.DEVNULL, stderr=subprocess.DEVNULL)
 
 base = json.load(open("/root/.vp/BASELINE.json"))
@@ -34,6 +38,15 @@ if missing:
     p2, f2 = parse(j2)
     p |= p2
     missing = stable - p
+    if missing:
+        # timing-sensitive tests (SIGINT, timeouts) are flaky on a loaded machine: one more serial attempt of just those
+        ids = sorted({"src/bluesky/tests/" + m.split("::")[0].split(".")[-1] + ".py::" + m.split("::", 1)[1].split("[")[0]
+                      for m in missing if "_vendor" not in m})
+        j3 = os.path.join(d, "c.xml")
+        run(ids, j3)
+        p3, f3 = parse(j3)
+        p |= p3
+        missing = stable - p
 print(f"stable={len(stable)} passed_now={len(p & stable)} missing={len(missing)}")
 for m in sorted(missing)[:40]:
     print("  MISSING", m)
